@@ -127,11 +127,20 @@ def style_tuple(st):
 
 
 def style_job(job):
-    (idx, ops, seed, scratch) = job
+    (idx, ops, seed, scratch, twin) = job
     warnings.simplefilter("ignore")
     from numbers_parser import Document, Style
     rng = random.Random(seed)
     sets = dict(zip(["A", "B"], attr_sets(rng, 2)))
+    if twin:
+        # near twins: B differs from A in exactly one attribute - the hard case for anything that shares or de-duplicates style records
+        other = sets["B"]
+        for _ in range(50):
+            if style_tuple(Style(**{twin: other[twin]}))[ATTRS.index(twin)] != style_tuple(Style(**{twin: sets["A"][twin]}))[ATTRS.index(twin)]:
+                break
+            other = attr_sets(rng, 1)[0]
+        sets["B"] = dict(sets["A"])
+        sets["B"][twin] = other[twin]
     doc = Document(num_rows=2, num_cols=2, num_header_rows=0, num_header_cols=0)
     tb = doc.sheets[0].tables[0]
     pos = {"c1": (0, 0), "c2": (1, 1)}
@@ -155,7 +164,7 @@ def style_job(job):
         if tup == base[c]:
             return "default"
         return "?:" + json.dumps(tup)[:200]
-    trace = {"ev": [], "meta": {"ops": ops, "idx": idx}}
+    trace = {"ev": [], "meta": {"ops": ops, "idx": idx, "twin": twin}}
     for op in ops:
         e = dict(op)
         try:
@@ -284,20 +293,44 @@ def run(ctx):
     ctx.stage("styles")
     sh, ns = dump_histories(ctx, "Styles", scfg % (5 if q else 6, "none", ""), "Gen_Styles")
     sh = [h for h in sh if any(o["op"] == "apply" for o in h) and any(o["op"] == "save" for o in h)]
+    all_sh = sh
     if len(sh) > (300 if q else 5000):
         sh = rng.sample(sh, 300 if q else 5000)
-    sjobs = [(i, [dict(o) for o in h], ctx.seed * 7 + i, ctx.scratch) for i, h in enumerate(sh)]
+    def both_live(h):
+        """two styles with different attribute sets are on the two cells when the file is saved"""
+        on, attr = {}, {}
+        for o in h:
+            if o["op"] == "reopen":
+                return False
+            if o["op"] == "add":
+                name = o["nm"] if o["nm"] != "AUTO" else next("Custom Style %d" % i for i in range(1, 5) if "Custom Style %d" % i not in attr)
+                attr[name] = o["a"]
+            elif o["op"] == "apply":
+                on[o["c"]] = o["nm"]
+            elif o["op"] == "save" and len(on) == 2 and len({attr.get(n, n) for n in on.values()}) == 2:
+                return True
+        return False
+    sjobs = [(i, [dict(o) for o in h], ctx.seed * 7 + i, ctx.scratch, None) for i, h in enumerate(sh)]
+    twins = [h for h in all_sh if both_live(h)]
+    if not twins:
+        raise Machinery("no style history with two styles live at a save")
+    twins = rng.sample(twins, min(len(twins), 4 if q else 60))
+    # every such history once per attribute, with the two styles differing in that attribute only
+    for j, h in enumerate(twins):
+        for k, a in enumerate(ATTRS[:-1]):
+            sjobs.append((100000 + j * 100 + k, [dict(o) for o in h], ctx.seed * 7 + j * 100 + k, ctx.scratch, a))
+    ctx.extra["twin_style_cases"] = len(twins) * (len(ATTRS) - 1)
     strs = fixtures.pmap(style_job, sjobs, ctx.workers, chunksize=4)
     ctx.evaluations += len(strs)
     for t in strs:
-        ctx.distinct.add(("s", json.dumps(t["meta"]["ops"])))
+        ctx.distinct.add(("s", json.dumps(t["meta"]["ops"]), t["meta"]["twin"]))
     ctx.sample({"style_history": strs[0]["meta"]["ops"]})
     ctx.extra["histories"] = {"border_states_with_hist": nb, "border_replayed": len(btr), "style_states_with_hist": ns, "style_replayed": len(strs)}
 
     def srej(t, line, op, clause):
         ev = t["ev"][line - 1]
         ctx.fail({"engine": "trace-styles", "clause": clause, "exc": (ev.get("exc") or "").split(":")[0]},
-                 "style history %s: rejected at event %d (%s): %s" % (json.dumps(t["meta"]["ops"])[:500], line, clause, json.dumps({k: v for k, v in ev.items()})[:400]), t["meta"])
+                 "style history %s%s: rejected at event %d (%s): %s" % (json.dumps(t["meta"]["ops"])[:500], " (styles differ in %s only)" % t["meta"]["twin"] if t["meta"]["twin"] else "", line, clause, json.dumps({k: v for k, v in ev.items()})[:400]), t["meta"])
     tracecheck.validate(ctx, "Trace_Styles", TS_CFG,
                         strs, "styles", srej, batch=400, payload=lambda t: {"ev": t["ev"]})
     ctx.stage("selftest")
